@@ -41,6 +41,7 @@ partial def loop (h : IO.FS.Stream) (out : IO.FS.Stream) : IO Unit := do
   if line.isEmpty then return ()
   let line := if line.endsWith "\n" then (line.dropEnd 1).toString else line
   out.putStrLn (handle line)
+  out.flush
   loop h out
 
 def main : IO Unit := do
